@@ -208,21 +208,65 @@ func zeroPadEqual(a, b []byte) bool {
 	return bytes.HasPrefix(b, a) && len(bytes.Trim(b[len(a):], "\x00")) == 0
 }
 
-func classify(got []obsItem, want []ment, probe []byte) (kind, rel string) {
+// gotLite is one yielded item resolved against the expected entries without copying:
+// idx = position of its key in the expected yield order (-1: a key that is not expected at all).
+type gotLite struct {
+	key   []byte // aliases the expected entry's key, or a copy for an unexpected key
+	idx   int
+	valOK bool
+}
+
+// readLite reads what the iterator yields from its current position (at most limit items).
+func readLite(it utils.Iterator, ents []ment, rev bool, limit int, buf []gotLite) []gotLite {
+	n := len(ents)
+	out := buf[:0]
+	for it.Valid() && len(out) < limit {
+		e := it.Item().Entry()
+		g := gotLite{idx: -1}
+		for j := 0; j < n; j++ {
+			w := &ents[j]
+			if rev {
+				w = &ents[n-1-j]
+			}
+			if bytes.Equal(e.Key, w.kb) {
+				g.idx, g.key = j, w.kb
+				g.valOK = string(e.Value) == w.v.v && e.Meta == w.v.meta && e.ExpiresAt == w.v.exp
+				break
+			}
+		}
+		if g.idx < 0 {
+			g.key = append([]byte{}, e.Key...)
+		}
+		out = append(out, g)
+		it.Next()
+	}
+	return out
+}
+
+// classify names the way got deviates from the expected yield order (ents, reversed if rev)
+// and the relation of the keys at the point of divergence (for seeks: relative to the probe).
+func classify(got []gotLite, ents []ment, rev bool, probe []byte) (kind, rel string) {
+	n := len(ents)
+	wantKey := func(i int) []byte {
+		if rev {
+			return ents[n-1-i].kb
+		}
+		return ents[i].kb
+	}
 	rel = "none"
 	defer func() {
 		// seeks: the relation that matters is between the probe and the first item that differs
 		if probe == nil || kind == "wrong-value" {
 			return
 		}
-		for i := 0; i < len(got) || i < len(want); i++ {
+		for i := 0; i < len(got) || i < n; i++ {
 			switch {
 			case i >= len(got):
-				rel = relation(probe, want[i].kb)
-			case i >= len(want):
+				rel = relation(probe, wantKey(i))
+			case i >= n:
 				rel = relation(probe, got[i].key)
-			case !bytes.Equal(got[i].key, want[i].kb):
-				rel = relation(probe, want[i].kb)
+			case got[i].idx != i:
+				rel = relation(probe, wantKey(i))
 				if r2 := relation(probe, got[i].key); r2 == "user-key-prefix" {
 					rel = r2
 				}
@@ -232,42 +276,37 @@ func classify(got []obsItem, want []ment, probe []byte) (kind, rel string) {
 			return
 		}
 	}()
-	n := len(got)
-	if len(want) < n {
-		n = len(want)
-	}
 	first := -1
-	for i := 0; i < n; i++ {
-		if !bytes.Equal(got[i].key, want[i].kb) || got[i].v != want[i].v {
+	for i := 0; i < len(got) && i < n; i++ {
+		if got[i].idx != i || !got[i].valOK {
 			first = i
 			break
 		}
 	}
 	if first >= 0 {
-		if bytes.Equal(got[first].key, want[first].kb) {
+		if got[first].idx == first {
 			return "wrong-value", "same-key"
 		}
-		rel = relation(got[first].key, want[first].kb)
+		rel = relation(got[first].key, wantKey(first))
 	}
-	gs := map[string]int{}
-	for _, g := range got {
-		gs[string(g.key)]++
-	}
-	ws := map[string]int{}
-	for _, w := range want {
-		ws[string(w.kb)]++
-	}
+	var cnt [32]int
 	missing, extra, dup := false, false, false
-	for k, c := range gs {
-		if c > 1 {
+	for i := range got {
+		if got[i].idx < 0 {
+			extra = true
+			for j := 0; j < i; j++ {
+				if got[j].idx < 0 && bytes.Equal(got[j].key, got[i].key) {
+					dup = true
+				}
+			}
+			continue
+		}
+		if cnt[got[i].idx]++; cnt[got[i].idx] > 1 {
 			dup = true
 		}
-		if ws[k] == 0 {
-			extra = true
-		}
 	}
-	for k := range ws {
-		if gs[k] == 0 {
+	for j := 0; j < n; j++ {
+		if cnt[j] == 0 {
 			missing = true
 		}
 	}
@@ -275,12 +314,12 @@ func classify(got []obsItem, want []ment, probe []byte) (kind, rel string) {
 	case dup:
 		// the radix tree pads keys with zero bytes: is the duplicated key, zero-padded, equal to
 		// another key of the contents?
-		for k, c := range gs {
-			if c < 2 {
+		for j := 0; j < n; j++ {
+			if cnt[j] < 2 {
 				continue
 			}
-			for w := range ws {
-				if w != k && zeroPadEqual([]byte(k), []byte(w)) {
+			for w := 0; w < n; w++ {
+				if w != j && zeroPadEqual(wantKey(j), wantKey(w)) {
 					return "duplicate", "zero-padded-twin"
 				}
 			}
@@ -371,29 +410,39 @@ func searchRel(p *probe, m *model, lo int) string {
 	return rel
 }
 
-// inputClass: does the set of internal keys (contents, optionally plus a probe) contain a
-// zero-padded twin (one key equals another followed by zero bytes) or two keys of one column
-// family whose user keys are prefix-related?
-func inputClass(ents []ment, probe []byte) string {
-	keys := make([][]byte, 0, len(ents)+1)
-	for i := range ents {
-		keys = append(keys, ents[i].kb)
+// inputClass: does the set of internal keys (contents, or a probe against the contents)
+// contain a zero-padded twin (one key equals another followed by zero bytes) or two keys of
+// one column family whose user keys are prefix-related?
+func pairClass(a, b []byte, class string) string {
+	if bytes.Equal(a, b) {
+		return class
 	}
-	if probe != nil {
-		keys = append(keys, probe)
+	if zeroPadEqual(a, b) {
+		return "zero-padded-twin"
 	}
+	if class == "plain" && relation(a, b) == "user-key-prefix" {
+		return "user-key-prefix"
+	}
+	return class
+}
+
+func contentsClass(ents []ment) string {
 	class := "plain"
-	for i := range keys {
-		for j := i + 1; j < len(keys); j++ {
-			if bytes.Equal(keys[i], keys[j]) {
-				continue
+	for i := range ents {
+		for j := i + 1; j < len(ents); j++ {
+			if class = pairClass(ents[i].kb, ents[j].kb, class); class == "zero-padded-twin" {
+				return class
 			}
-			if zeroPadEqual(keys[i], keys[j]) {
-				return "zero-padded-twin"
-			}
-			if relation(keys[i], keys[j]) == "user-key-prefix" {
-				class = "user-key-prefix"
-			}
+		}
+	}
+	return class
+}
+
+func probeClass(ents []ment, probe []byte) string {
+	class := "plain"
+	for i := range ents {
+		if class = pairClass(ents[i].kb, probe, class); class == "zero-padded-twin" {
+			return class
 		}
 	}
 	return class
@@ -416,15 +465,16 @@ func compareIndex(idx index, m *model, probes []probe) []*mismatch {
 		// zero-padded twin or prefix-related user keys form their own classes; otherwise the
 		// relation of the keys at the point of divergence is used.
 		if contentClass == "" {
-			contentClass = inputClass(m.ents, nil)
+			contentClass = contentsClass(m.ents)
 		}
-		if c := contentClass; c != "plain" {
-			rel = c
-		}
-		if pb != nil && rel != "zero-padded-twin" {
-			if c := inputClass(m.ents, pb); c != "plain" {
-				rel = c
+		class := contentClass
+		if pb != nil && class != "zero-padded-twin" {
+			if pc := probeClass(m.ents, pb); pc != "plain" && (pc == "zero-padded-twin" || class == "plain") {
+				class = pc
 			}
+		}
+		if class != "plain" {
+			rel = class
 		}
 		k := op + " " + kind + " " + rel
 		if seen[k] || len(out) >= 12 {
@@ -435,26 +485,38 @@ func compareIndex(idx index, m *model, probes []probe) []*mismatch {
 		mm.rel = rel
 		out = append(out, mm)
 	}
-	fail := func(op string, p *probe, it utils.Iterator, redo func(), want []ment) {
+	var liteBuf [16]gotLite
+	fail := func(op string, p *probe, it utils.Iterator, redo func(), ents []ment, rev bool) {
 		redo()
-		got := drain(it, limit)
-		ps := "-"
+		lim := limit
+		if lim > len(liteBuf) {
+			lim = len(liteBuf)
+		}
 		var pb []byte
 		if p != nil {
-			ps, pb = p.k.String(), p.kb
+			pb = p.kb
 		}
-		kind, rel := classify(got, want, pb)
+		kind, rel := classify(readLite(it, ents, rev, lim, liteBuf[:]), ents, rev, pb)
 		add(op, kind, rel, pb, func() *mismatch {
-			return &mismatch{op: op, kind: kind, rel: rel, probe: ps, got: describeItems(got), want: describeEnts(want)}
+			ps := "-"
+			if p != nil {
+				ps = p.k.String()
+			}
+			redo()
+			want := ents
+			if rev {
+				want = reversed(ents)
+			}
+			return &mismatch{op: op, kind: kind, rel: rel, probe: ps, got: describeItems(drain(it, limit)), want: describeEnts(want)}
 		})
 	}
 	fwd.Rewind()
 	if !matches(fwd, m.ents, false) {
-		fail("scan-fwd", nil, fwd, fwd.Rewind, m.ents)
+		fail("scan-fwd", nil, fwd, fwd.Rewind, m.ents, false)
 	}
 	rev.Rewind()
 	if !matches(rev, m.ents, true) {
-		fail("scan-rev", nil, rev, rev.Rewind, reversed(m.ents))
+		fail("scan-rev", nil, rev, rev.Rewind, m.ents, true)
 	}
 	for i := range probes {
 		p := &probes[i]
@@ -483,12 +545,12 @@ func compareIndex(idx index, m *model, probes []probe) []*mismatch {
 		}
 		fwd.Seek(p.kb)
 		if !matches(fwd, m.ents[lo:], false) {
-			fail("seek-fwd", p, fwd, func() { fwd.Seek(p.kb) }, m.ents[lo:])
+			fail("seek-fwd", p, fwd, func() { fwd.Seek(p.kb) }, m.ents[lo:], false)
 		}
 		up := m.upper(p.k)
 		rev.Seek(p.kb)
 		if !matches(rev, m.ents[:up+1], true) {
-			fail("seek-rev", p, rev, func() { rev.Seek(p.kb) }, reversed(m.ents[:up+1]))
+			fail("seek-rev", p, rev, func() { rev.Seek(p.kb) }, m.ents[:up+1], true)
 		}
 	}
 	return out
